@@ -42,6 +42,7 @@ static void common_setup(const char* prop)
         VM.cam[s].exposure_ms = (double)vs_param(s ? "exposure1" : "exposure", 10);
         VM.cam[s].trigger = (int)vs_param("trigger", 0);
         VM.cam[s].fail_get_frame_at = (int)vs_param(s ? "camfail1" : "camfail", -1);
+        VM.cam[s].fail_shape_at = s == 0 ? (int)vs_param("shapefail", -1) : -1;
         if (s == 0) { VM.cam[s].reshape_at = (int)vs_param("reshape_at", -1); VM.cam[s].reshape_mode = (int)vs_param("reshape_mode", 0); VM.cam[s].reshape_w = (uint32_t)vs_param("reshape_w", 1); VM.cam[s].reshape_h = (uint32_t)vs_param("reshape_h", 1); }
         VM.store[s].append_ms = (double)vs_param(s ? "append_ms1" : "append_ms", 0);
         VM.store[s].fail_append_at = (int)vs_param(s ? "storefail1" : "storefail", -1);
@@ -457,7 +458,7 @@ static void c09_run(void)
     for (int s = 0; s < P_STREAMS; ++s) check_storage_complete(s, 1, -1, "C09", 1);
     // fault-free follow-up
     P_AVG = 0;
-    for (int s = 0; s < P_STREAMS; ++s) { VM.cam[s].fail_get_frame_at = -1; VM.store[s].fail_append_at = -1; PROPS.video[s].max_frame_count = 2; PROPS.video[s].frame_average_count = 0; VM.store[s].append_ms = 0; }
+    for (int s = 0; s < P_STREAMS; ++s) { VM.cam[s].fail_get_frame_at = -1; VM.cam[s].fail_shape_at = -1; VM.store[s].fail_append_at = -1; PROPS.video[s].max_frame_count = 2; PROPS.video[s].frame_average_count = 0; VM.store[s].append_ms = 0; }
     OKQ(acquire_configure(RT, &PROPS));
     begin_acquisition(reg);
     OKQ(acquire_start(RT));
@@ -563,6 +564,8 @@ static void c08_configure(char which)
     if (which == 'B') rt_select(&p, 0, "vcam1", "vstore1");
     if (which == 'F') { rt_select(&p, 0, "vcam0", "vstore0"); p.video[0].frame_average_count = 2; p.video[0].max_frame_count = 6; } // like A with frame averaging
     VM.store[0].fail_append_at = -1; VM.cam[0].fail_start_at = -1; VM.store[0].fail_start_at = -1;
+    VM.cam[0].fail_shape_at = -1;
+    if (which == 'K') { rt_select(&p, 0, "vcam0", "vstore0"); VM.cam[0].fail_shape_at = 1; } // like A, but the camera fails to report its shape before the second frame
     if (which == 'G') { rt_select(&p, 0, "vcam0", "vstore0"); VM.cam[0].fail_start_at = vmock_cam(0)->starts; }     // like A, but the camera refuses its next start
     VM.cam[1].fail_start_at = -1; VM.store[0].fail_set = 0;
     if (which == 'J') { rt_select(&p, 0, "vcam0", "vstore0"); rt_select(&p, 1, "vcam1", "vstore1"); VM.cam[1].fail_start_at = vmock_cam(1)->starts; } // two streams; the second stream's camera refuses its next start (the first stream is already running then)
@@ -597,7 +600,7 @@ static void c08_run(void)
     for (const char* p = prog; *p; ++p) {
         char one[2] = { *p, 0 };
         switch (*p) {
-            case 'A': case 'B': case 'C': case 'D': case 'E': case 'F': case 'G': case 'H': case 'J': case 'T': case 'R': case '2': case '0': c08_configure(*p); break;
+            case 'A': case 'B': case 'C': case 'D': case 'E': case 'F': case 'G': case 'H': case 'J': case 'K': case 'T': case 'R': case '2': case '0': c08_configure(*p); break;
             case 's': acquire_start(RT); break;
             case 't': acquire_execute_trigger(RT, 0); break;
             case 'm': {
